@@ -371,6 +371,8 @@ def run(tier):
         inbound = [{"g": 1, "after": 0, "q": q, "tag": 101}, {"g": 2, "after": 0, "q": q, "tag": 102, "dup": True}]
         rsc.append(rf.scenario("wf-%d" % len(rsc), [{"k": "handle", "h": 1}, P(1)], ["pre", "conn"], [{"k": 2, "o": "cutAfter"}], inbound=inbound))
     fam.execute(binary, rsc)
+    import dialer_family
+    dialer_runs = dialer_family.c05(binary, v)
     rc = v.finish()
     nlens = len(vlib.ndjson_read(table_path))
     cov = {
